@@ -25,6 +25,7 @@ type c17World struct {
 	diag    api.EntityLocalInterface
 	pending []*api.Message
 	extra   *spine.EntityLocal
+	reqCtr  uint64 // counter of a request of the local client feature that peer A has not answered yet
 }
 
 //go:norace
@@ -58,6 +59,10 @@ func newC17World() *c17World {
 	c.b.Deliver(c.b.Datagram(cliAddr("B", "e1f1", true), srvAddr("L2lc", true), model.CmdClassifierTypeWrite, true, nil, model.CmdType{LoadControlLimitListData: limitList(2, 1, 2)}))
 	c.extra = spine.NewEntityLocal(c.w.L, model.EntityTypeTypeCEM, spine.NewAddressEntityType([]uint{4}), 4*time.Second)
 	c.extra.GetOrAddFeature(model.FeatureTypeTypeMeasurement, model.RoleTypeServer)
+	if ctr, err := c.cli.RequestRemoteData(fnLimit, nil, nil, c.a.Dev.FeatureByAddress(cliAddr("A", "e1f4", true))); err == nil && ctr != nil {
+		c.reqCtr = uint64(*ctr)
+		_ = c.cli.AddResponseCallback(*ctr, func(api.ResponseMessage) {})
+	}
 	rt.WaitIdle()
 	return c
 }
@@ -160,6 +165,58 @@ func c17Ops() []c17Op {
 			}
 			c.b.Deliver(c.b.BindCall(cliAddr("B", "e2f1", true), srvAddr("L1ms", true), model.FeatureTypeTypeMeasurement))
 		}},
+		// configuration calls an application makes at run time (use-case implementations add features, functions,
+		// callbacks and descriptions when a use case is added, possibly while peers are connected)
+		{"local:configure-features", func(c *c17World) {
+			e := c.w.L.Entity(spine.NewAddressEntityType([]uint{2}))
+			f := e.GetOrAddFeature(model.FeatureTypeTypeElectricalConnection, model.RoleTypeServer)
+			f.AddFunctionType(model.FunctionTypeElectricalConnectionDescriptionListData, true, false)
+			f.SetDescriptionString("electrical connection")
+			c.srv.AddFunctionType(model.FunctionTypeLoadControlLimitConstraintsListData, true, false)
+			c.srv.SetDescriptionString("limits")
+			c.srv.SetWriteApprovalTimeout(5 * time.Second)
+			_ = c.srv.AddWriteApprovalCallback(func(m *api.Message) {})
+			c.cli.AddResultCallback(func(api.ResponseMessage) {})
+			_ = c.cli.AddResponseCallback(4711, func(api.ResponseMessage) {})
+		}},
+		{"local:use-case-changes", func(c *c17World) {
+			e := c.w.L.Entity(spine.NewAddressEntityType([]uint{2}))
+			e.AddUseCaseSupport(model.UseCaseActorTypeCEM, ucNames["u2"], "1.0.0", "r", true, scenList("1"))
+			e.SetUseCaseAvailability(model.UseCaseActorTypeCEM, ucNames["u2"], false)
+			_ = e.HasUseCaseSupport(model.UseCaseActorTypeCEM, ucNames["u2"])
+			e.RemoveUseCaseSupport(model.UseCaseActorTypeCEM, ucNames["u2"])
+			e.RemoveAllUseCaseSupports()
+		}},
+		{"local:bind+unbind-remote", func(c *c17World) {
+			ra := cliAddr("A", "e1f4", true)
+			_, _ = c.cli.BindToRemote(ra)
+			_ = c.cli.HasBindingToRemote(ra)
+			_ = c.cli.HasSubscriptionToRemote(ra)
+			_, _ = c.cli.RemoveRemoteBinding(ra)
+			_, _ = c.cli.RemoveRemoteSubscription(ra)
+		}},
+		{"local:connect-peer-C", func(c *c17World) {
+			p := c.w.ConnectAndAnnounce("C", "dC", []world.EntSpec{clientEntity([]uint{1})})
+			p.Deliver(p.SubscribeCall(world.FAddr("dC", []uint{1}, 1), srvAddr("L1lc", true), model.FeatureTypeTypeLoadControl))
+		}},
+		{"A:reply+result", func(c *c17World) {
+			c.a.Deliver(c.a.Datagram(cliAddr("A", "e1f4", true), c.cli.Address(), model.CmdClassifierTypeReply, false, ptrCtr(c.reqCtr), lim(2)))
+			c.a.Deliver(c.a.Datagram(cliAddr("A", "e1f4", true), c.cli.Address(), model.CmdClassifierTypeResult, false, ptrCtr(c.reqCtr),
+				model.CmdType{ResultData: &model.ResultDataType{ErrorNumber: util.Ptr(model.ErrorNumberType(0))}}))
+		}},
+		{"A:usecase-reply+nm-reads", func(c *c17World) {
+			uc := &model.NodeManagementUseCaseDataType{}
+			uc.AddUseCaseSupport(*world.FAddr("dA", []uint{1}, 0), model.UseCaseActorTypeCEM, ucNames["u1"], "1.0.0", "r", true, scenList("12"))
+			c.a.Deliver(c.a.Datagram(c.a.NM(), world.LocalNM(), model.CmdClassifierTypeReply, false, ptrCtr(3), model.CmdType{NodeManagementUseCaseData: uc}))
+			c.a.Deliver(c.a.Datagram(c.a.NM(), world.LocalNM(), model.CmdClassifierTypeRead, false, nil, model.CmdType{NodeManagementSubscriptionData: &model.NodeManagementSubscriptionDataType{}}))
+			c.a.Deliver(c.a.Datagram(c.a.NM(), world.LocalNM(), model.CmdClassifierTypeRead, false, nil, model.CmdType{NodeManagementBindingData: &model.NodeManagementBindingDataType{}}))
+			c.a.Deliver(c.a.Datagram(c.a.NM(), world.LocalNM(), model.CmdClassifierTypeRead, false, nil, model.CmdType{NodeManagementUseCaseData: &model.NodeManagementUseCaseDataType{}}))
+			c.a.Deliver(c.a.Datagram(c.a.NM(), world.LocalNM(), model.CmdClassifierTypeRead, false, nil, model.CmdType{NodeManagementDestinationListData: &model.NodeManagementDestinationListDataType{}}))
+		}},
+		{"B:full-discovery-notify", func(c *c17World) {
+			cmd := model.CmdType{NodeManagementDetailedDiscoveryData: c.b.DiscoveryData([]world.EntSpec{clientEntity([]uint{1}), clientEntity([]uint{3})}, true, nil)}
+			c.b.Deliver(c.b.Datagram(c.b.NM(), world.LocalNM(), model.CmdClassifierTypeNotify, false, nil, cmd))
+		}},
 		{"local:RemoveRemoteDeviceConnection(B)", func(c *c17World) { c.w.L.RemoveRemoteDeviceConnection("B") }},
 		{"local:DatagramForMsgCounter", func(c *c17World) {
 			_, _ = c.a.Dev.Sender().DatagramForMsgCounter(3)
@@ -174,6 +231,8 @@ func c17Ops() []c17Op {
 					for _, f := range e.Features() {
 						_ = f.Operations()
 						_ = f.DataCopy(fnLimit)
+						_ = f.Description()
+						_ = f.MaxResponseDelayDuration()
 					}
 				}
 				_ = d.UseCases()
@@ -184,7 +243,9 @@ func c17Ops() []c17Op {
 				for _, f := range e.Features() {
 					_ = f.Functions()
 					_ = f.Information()
+					_ = f.Description()
 				}
+				_ = e.Information()
 			}
 			_ = c.srv.DataCopy(fnLimit)
 			_ = c.w.L.RemoteDeviceForSki("B")
